@@ -11,6 +11,7 @@ import OttoVerif.Base.Proto
 import OttoVerif.C03.Spec
 import OttoVerif.C03.Lit
 import OttoVerif.C03.Asi
+import OttoVerif.C03.Punct
 namespace OttoVerif.C03.Driver
 open OttoVerif.C03 OttoVerif.Proto
 
@@ -150,7 +151,7 @@ def handleExpr (mode tree toks : String) : String :=
     let model := match parseExpression (fuelFor ts) true ts with
       | some (e, [t]) => if t.k = .eof then dumpStr e else "reject"
       | _ => "reject"
-    let lexOk := mode != "min" || eraseNl ts == Spec.print t ++ [{ k := .eof }]
+    let lexOk := (mode != "min" && mode != "tight") || eraseNl ts == Spec.print t ++ [{ k := .eof }]
     let spec := dumpStr t ++ (if lexOk then "" else ";lex")
     model ++ " " ++ spec ++ " -"
   | _, _ => "bad-request bad-request -"
@@ -220,12 +221,24 @@ def handleAsiRe (nlbits stmts toks : String) : String :=
       (if detached (ts.map (·.k)) then "regexp_flags_detached" else "-")
   | none => "bad-request bad-request -"
 
+/-- punct <hex text>: a text over the punctuator characters and the space; compared: the spellings of the scanner's tokens -/
+def handlePunct (h : String) : String :=
+  match bytes? (h.drop 1).toString with
+  | some bs =>
+    let show_ (r : Punct.Res) : String :=
+      let ts := r.1.map fun t => String.ofList (t.map Char.ofNat)
+      let s := "`".intercalate ts
+      (if s.isEmpty then "-" else s) ++ (if r.2 then "`E" else "")
+    show_ (Punct.modelTokens bs) ++ " " ++ show_ (Punct.specTokens bs) ++ " -"
+  | none => "bad-request bad-request -"
+
 def handle (ws : List String) : String :=
   match ws with
   | ["expr", mode, tree, _src, toks] => handleExpr mode tree toks
   | ["asi", nlbits, stmts, _src, toks] => handleAsi nlbits stmts toks
   | ["noin", form, tree, _src, toks] => handleNoIn form tree toks
   | ["asire", nlbits, stmts, toks, _src] => handleAsiRe nlbits stmts toks
+  | ["punct", h] => handlePunct h
   | "obj" :: rest => Lit.handleObj rest
   | "numadj" :: rest => Lit.handleNumAdj rest
   | "num" :: rest => Lit.handleNum rest
